@@ -99,6 +99,29 @@ def run(ck):
         crashed = True; break
       runs.append((flow, [e[1] for e in rs.schedule_entries()], rs.ff_entries(), tr))
     if crashed: continue
+    # the same inputs driven with sim_tick() alone (poke inputs, tick, read — no explicit combinational evaluation first):
+    # the edge must still see F(pre-edge state, inputs of THIS cycle), whatever the pass group's tick is assembled from
+    for flow in rng.sample(['default', 'simple', 'heutopo', 'mamba', 'unroll'], 2):
+      try:
+        rs = rtlgen.RealSim(cls, d, flow)
+        got = []
+        for ins in cycles:
+          rs.set_inputs(ins); rs.top.sim_tick(); got.append(rs.read_all())
+      except leanio.MachineryError: raise
+      except Exception as e:
+        ck.violation('simulation-raised', {'flow': flow, 'exc': type(e).__name__, 'drive': 'tick-only'},
+                     {'source': src, 'flow': flow, 'inputs': cycles, 'signals': [s_.path for s_ in d.sigs]},
+                     {'error': f'{type(e).__name__}: {e}'[:400]})
+        continue
+      want = [list(b_) for (_a, b_) in ref_trace]
+      ck.count({'src_hash': hash(src) & 0xffffffff, 'flow': flow, 'drive': 'tick-only'}, nontrivial=bool(ff_ids))
+      ck.hist('tick_only_flow', flow)
+      if [list(g) for g in got] != want:
+        k = next(i for i, (x, y) in enumerate(zip(got, want)) if list(x) != list(y))
+        ck.violation('tick-only-not-F-of-pre-edge-state', {'flow': flow},
+                     {'source': src, 'flow': flow, 'tick_only_inputs': cycles, 'signals': [s_.path for s_ in d.sigs]},
+                     {'cycle': k, 'impl': list(got[k]), 'ref': want[k], 'signals': [s_.path for s_ in d.sigs],
+                      'oracle': 'poke inputs, sim_tick(), read: the state after the tick is F(pre-edge state, current inputs) with the combinational logic settled'})
     comb_order = runs[1][1]
     perms = list(itertools.permutations(ff_ids)) if len(ff_ids) <= 4 else [tuple(rng.sample(ff_ids, len(ff_ids))) for _ in range(24)]
     if len(ff_ids) > 6: perms = perms[:3]
